@@ -15,7 +15,7 @@ SPEC = {
     "props_module": "NDB.Props.C15",
     "corr_modules": ["NDB.Corr.C15"],
     "theorems": ["C15_refuted_label", "C15_refuted", "C15_fixed_backfill", "C15_fixed_numeric",
-                 "C15_seek_scan_state", "C15_index_transparent", "C15_nonvacuous", "C15_oeq_is_cy_eq"],
+                 "C15_seek_scan_state", "C15_index_transparent", "C15_twin_complete", "C15_nonvacuous", "C15_oeq_is_cy_eq"],
     "allowed_axioms": ALLOWED_PRIMITIVES,
     "harness_pkg": "hx_update",
     "harness_bin": "c15",
@@ -31,8 +31,7 @@ SPEC = {
         "Cypher equality on scalars `oeq` (float = float as sign-magnitude key equality with both zeros identified, as in C27; "
         "int = float exact) validated against the engine by the same correspondence; tied to Cypher/Compare.v cy_eq by theorem on "
         "null/bool/int/string and by vm_compute on every compared pair (floats: bit pattern -> primitive float by SF2Prim)",
-        "numeric_twin exactness (an equal number of the other numeric type is reached through the twin encoding) is not proved: "
-        "`k_numeric = false` is a hypothesis of C15_index_transparent and is evaluated on every query of every case (a hit is a violation)",
+        "numeric_twin exactness and completeness are proved for every i64 and every double (IndexSem/Twin_proofs.v, C15_twin_complete); Corr/C15.v still evaluates `k_numeric` on every query as a redundant check",
         "the index B-tree behaves as a multiset of (key, node id) entries (C26's subject); most histories keep the tree within one leaf, one history in 25 (quick; 150 thorough) grows it to 290-390 live and dead entries so that the root leaf splits while an update of an existing node is applied, followed by duplicate-value writes, a reopen and a lookup sweep",
         "Rust harness harness/hx_update/src/bin/c15.rs (generator, two-database runner, store dump, Rust mirror used for classification) and lib/vcheck.py",
     ],
@@ -43,7 +42,7 @@ SPEC = {
     ],
     "manifest": {
         "category": "proof",
-        "text": "Model of the property index (maintenance at commit by creation label, backfill at creation, entries of deleted nodes kept, prefix lookup of the value and of its numeric twin, seek with residual filters, fallback when the lookup is empty) and of the label scan. Proved for every history: outside the recorded classes (indexed label not the creation label, store resynchronisation) the index holds exactly one entry per indexed node and value — also when it is created over existing data (backfill) — and the seek plan returns exactly the rows of the scan plan; the one remaining hypothesis is the unproved arithmetic fact that the numeric twin conversion is exact, evaluated on every generated query. The unrestricted statement is refuted in Coq by a witness that the harness reproduces on the code (known finding K-C15-label). Four defects were repaired in /repo (duplicate rows from undeletable equal-value entries; deleted nodes returned through stale entries; no backfill; int/float lookups across encodings). The model's scalar equality is tied to Cypher/Compare.v's cy_eq. Model = implementation is checked on generated histories run on two databases, with compaction and reopen.",
+        "text": "Model of the property index (maintenance at commit by creation label, backfill at creation, entries of deleted nodes kept, prefix lookup of the value and of its numeric twin, seek with residual filters, fallback when the lookup is empty) and of the label scan. Proved for every history: outside the recorded classes (indexed label not the creation label, store resynchronisation) the index holds exactly one entry per indexed node and value — also when it is created over existing data (backfill) — and the seek plan returns exactly the rows of the scan plan; the numeric twin conversion is proved exact and complete (bit-level arithmetic on binary64 fields), so no arithmetic side condition is left. The unrestricted statement is refuted in Coq by a witness that the harness reproduces on the code (known finding K-C15-label). Four defects were repaired in /repo (duplicate rows from undeletable equal-value entries; deleted nodes returned through stale entries; no backfill; int/float lookups across encodings). The model's scalar equality is tied to Cypher/Compare.v's cy_eq. Model = implementation is checked on generated histories run on two databases, with compaction and reopen.",
         "design_ref": "DESIGN.md §5 C15",
         "level_note": "Trusted: Coq kernel; hand-written model tied to the code by sampled correspondence (not by proof); B-tree as a multiset (C26).",
         "technique": "Rocq proof (invariant over histories: index sound, complete and duplicate-free; sorted-list extensionality) + vm_compute witnesses + two-database differential run with model replay",
